@@ -23,6 +23,7 @@ func registry() []PropSpec {
 			ID: "C15",
 			Quick: []HarnessSpec{
 				{Pkg: pkgTracer, Func: "H15a_q", Unwind: 8, Note: "tracingHTTP2Conn.Read/Write/Close against a fake conn returning n in 0..4 and nil / error / timeout error, client and server side"},
+				{Pkg: pkgTracer, Func: "H15k_q", Unwind: 30, Split: []SplitDim{{"cut", 0, 20}}, CaseNote: "case split: where the 20-byte stream is cut into two reads", Note: "http2FrameTracer.trace on a HEADERS frame with or without END_HEADERS followed by a CONTINUATION (resp. another frame), 1-byte payloads symbolic, every cut into two reads; emitFrame is the recording model (natively: the real framer and HPACK decoder on a really split request header block after the client preface)"},
 				{Pkg: pkgTracer, Func: "H15c_q", Unwind: 8, Note: "tracingHTTP2Conn.Read/Write hand exactly the bytes returned / given to the frame tracer of their direction, for n in 0..4 and nil / error / timeout error (also n>0 together with an error), client and server side"},
 				{Pkg: pkgTracer, Func: "H15b_q", Unwind: 30, CaseGen: c15Cases(3), CaseNote: "case split: declared payload length of each of 2 frames (0..3) and every partition of the stream into 3 chunks; flags, stream ids and payload bytes symbolic", Note: "http2FrameTracer.trace (response direction): 2 frames of an unknown type, state checked after every chunk"},
 				{Pkg: pkgTracer, Func: "H15r_q", Unwind: 12, Note: "http2RetryCollector: every well-formed history of <=5 operations (stream starts, is refused, completes for good, retry timer fires, connection dies) on two test names; the 3 s retry timer is a stub whose firing is an operation"},
